@@ -288,6 +288,15 @@ class Printer:
         m = re.fullmatch(r'\(\*([A-Za-z_]\w*)\)', e)
         if m:
             return m.group(1)
+        if u.get('kind') in ('CXXMemberCallExpr', 'CallExpr') and re.fullmatch(r'[A-Za-z_]\w*\((?:[^()]|\([^()]*\)|\((?:[^()]|\([^()]*\))*\))*\)', e):
+            # a C++ call returning a reference whose (template) mapping is a C function returning the object BY VALUE:
+            # the value is materialised so that its address can be taken (by-name mappings print `(*f(..))` instead)
+            try:
+                c = self.ctype(u['type'])
+            except Unsupported:
+                c = None
+            if c is not None and self.is_struct(c):
+                return f'(&({c}[1]){{{e}}}[0])'
         return f'(&{e})'
 
     def arg(self, a):
